@@ -111,7 +111,43 @@ def recheck(name):
     return 0
 
 
+def rescratch(wt, name, extra_checks=()):
+    """re-run our check against a stored seed in a scratch worktree (VERIF_REPO=<wt>; /repo is not touched) and update its evaluation"""
+    dst = os.path.join(VERIF, "seeded", name)
+    meta = json.load(open(os.path.join(dst, "meta.json")))
+    res = meta.setdefault("evaluation", {})
+    pid = res.get("property") or meta.get("property")
+    sh("git checkout -- .", cwd=wt)
+    rc, out = sh("git apply %s" % os.path.join(dst, "patch.diff"), cwd=wt)
+    if rc != 0:
+        print(name, "patch does not apply:", out[-200:])
+        return 1
+    try:
+        rc, out = sh("VERIF_REPO=%s ./check %s --tier quick" % (wt, pid), cwd=VERIF, timeout=3600)
+        res["check_rc"] = rc
+        res["check_lines"] = [l for l in out.splitlines() if l.startswith("VIOLATION") or l.startswith("KNOWN-FINDING")]
+        res["detected"] = any(l.startswith("VIOLATION") for l in out.splitlines())
+        res["mode"] = "scratch worktree (VERIF_REPO), re-evaluated"
+        res["replay_heads"] = []
+        for l in res["check_lines"]:
+            if l.startswith("VIOLATION") and "replay=" in l:
+                p = l.split("replay=")[1].split()[0]
+                if os.path.exists(p):
+                    res["replay_heads"].append(open(p).read()[:600])
+    finally:
+        sh("git checkout -- .", cwd=wt)
+    with open(os.path.join(dst, "meta.json"), "w") as f:
+        json.dump(meta, f, indent=1)
+    print(name, json.dumps({k: res.get(k) for k in ("detected", "check_rc", "check_lines")}), flush=True)
+    return 0
+
+
 def main():
+    if sys.argv[1] == "--rescratch":
+        rc = 0
+        for n in sys.argv[3:]:
+            rc |= rescratch(sys.argv[2], n)
+        return rc
     if sys.argv[1] == "--scratch":
         return scratch_eval(sys.argv[2], sys.argv[3], sys.argv[4] if len(sys.argv) > 4 else None)
     if sys.argv[1] == "--recheck":
